@@ -15,6 +15,7 @@ Section YtreeInd.
   Hypothesis Hnum : forall q i, P (YNum q i).
   Hypothesis Hbool : forall b, P (YBool b).
   Hypothesis Hstr : forall s, P (YStr s).
+  Hypothesis Hnull : P YNull.
   Hypothesis Hlist : forall l, Forall P l -> P (YList l).
   Hypothesis Hmap : forall m, Forall (fun kv => P (snd kv)) m -> P (YMap m).
 
@@ -23,6 +24,7 @@ Section YtreeInd.
     | YNum q i => Hnum q i
     | YBool b => Hbool b
     | YStr s => Hstr s
+    | YNull => Hnull
     | YList l =>
         Hlist l ((fix go (l : list ytree) : Forall P l :=
                     match l with
